@@ -17,20 +17,165 @@ open RbModel RbModel.Num RbModel.Proc RbModel.Proc.Compile RbModel.Proc.Vm
 open RbModel.Ast (Pos)
 open RbThm.ProcLen
 
+/-! ### the blocks of the STATIC procedures only grow -/
+
+
+/-- the blocks of the STATIC procedures only grow: a block that exists keeps existing, a created variable stays created -/
+def Grows (σ τ : Vm) : Prop :=
+  ∀ (g : Nat) (fr : Frame), σ.statics g = some fr → ∃ fr' : Frame, τ.statics g = some fr' ∧
+    ∀ i : Nat, (∃ w, fr[i]? = some (some w)) → ∃ w, fr'[i]? = some (some w)
+
+theorem Grows.refl (σ : Vm) : Grows σ σ := fun _ fr h => ⟨fr, h, fun _ hi => hi⟩
+
+theorem Grows.trans {a b c : Vm} (h₁ : Grows a b) (h₂ : Grows b c) : Grows a c := by
+  intro g fr h
+  obtain ⟨fr1, e1, k1⟩ := h₁ g fr h
+  obtain ⟨fr2, e2, k2⟩ := h₂ g fr1 e1
+  exact ⟨fr2, e2, fun i hi => k2 i (k1 i hi)⟩
+
+theorem Grows.of_eq {σ τ : Vm} (h : τ.statics = σ.statics) : Grows σ τ := by
+  intro g fr h1; exact ⟨fr, by rw [h]; exact h1, fun _ hi => hi⟩
+
+theorem grows_setV (σ : Vm) (x : Var) (v : Val) : Grows σ (σ.setV x v) := by
+  unfold Vm.setV Vm.setLocal
+  cases x.shared with
+  | true => exact Grows.of_eq rfl
+  | false =>
+    simp only [Bool.false_eq_true, if_false]
+    cases curStatic σ.ctx with
+    | none => exact Grows.of_eq rfl
+    | some f =>
+      intro g fr h1
+      by_cases hg : g = f
+      · subst hg
+        exact ⟨setVar fr x.slot v, by simp [h1], fun i hi => created_setVar fr x.slot i v hi⟩
+      · exact ⟨fr, by simp [hg, h1], fun _ hi => hi⟩
+
+theorem created_applyArgs (fr : Frame) (vs : List Val) (i : Nat) (h : ∃ w, fr[i]? = some (some w)) :
+    ∃ w, (applyArgs fr vs)[i]? = some (some w) := by
+  obtain ⟨w, hw⟩ := h
+  unfold applyArgs
+  by_cases hi : i < vs.length
+  · exact ⟨vs[i], by rw [List.getElem?_append_left (by simpa using hi)]; simp [List.getElem?_eq_getElem hi]⟩
+  · refine ⟨w, ?_⟩
+    rw [List.getElem?_append_right (by simp; omega), List.getElem?_drop]
+    simp only [List.length_map]
+    rw [show vs.length + (i - vs.length) = i by omega]; exact hw
+
+theorem pushArg_statics {σ σ' : Vm} {v : Val} (h : pushArg σ v = some σ') : σ'.statics = σ.statics := by
+  unfold pushArg at h
+  split at h
+  · injection h with h; subst h; rfl
+  · cases h
+
+theorem truncRegs_statics {σ σ' : Vm} {m : Nat} (h : truncRegs σ m = some σ') : σ'.statics = σ.statics := by
+  unfold truncRegs at h
+  simp only [] at h
+  split at h
+  · injection h with h; subst h; rfl
+  · cases h
+
+theorem step_grows {code : Code} {σ τ : Vm} (h : Vm.step code σ = .next τ) : Grows σ τ := by
+  unfold Vm.step at h
+  split at h
+  · cases h
+  · rename_i i p hcode
+    cases i <;> simp only [] at h
+    all_goals (try (first
+      | (injection h with h; subst h; exact Grows.of_eq rfl)
+      | (unfold Vm.resA at h; split at h <;> first | (injection h with h; subst h; exact Grows.of_eq rfl) | cases h)))
+    case copyAToVarPath =>
+      split at h
+      · cases h
+      · rename_i x t rest hp
+        injection h with h; subst h
+        exact (grows_setV σ x σ.regs.a).trans (Grows.of_eq rfl)
+    case pushStatic f =>
+      split at h
+      · rename_i vs rest hctx
+        injection h with h; subst h
+        intro g fr h1
+        by_cases hg : g = f
+        · subst hg
+          exact ⟨applyArgs fr vs, by simp [Vm.advance, h1], fun i hi => created_applyArgs fr vs i hi⟩
+        · exact ⟨fr, by simp [Vm.advance, hg, h1], fun _ hi => hi⟩
+      · cases h
+    case pushByVal =>
+      split at h
+      · rename_i σ' hpa; injection h with h; subst h; have := pushArg_statics hpa; exact Grows.of_eq this
+      · cases h
+    case pushNamed =>
+      split at h
+      · rename_i σ' hpa; injection h with h; subst h; have := pushArg_statics hpa; exact Grows.of_eq this
+      · cases h
+    case pushByRef =>
+      split at h
+      · cases h
+      · split at h
+        · rename_i σ' hpa; injection h with h; subst h; have := pushArg_statics hpa; exact Grows.of_eq this
+        · cases h
+    case popRet =>
+      split at h
+      · split at h
+        · rename_i σ' htr; injection h with h; subst h; have := truncRegs_statics htr; exact Grows.of_eq this
+        · cases h
+      · cases h
+    all_goals (repeat' split at h)
+    all_goals (first | (injection h with h; subst h; exact Grows.of_eq rfl) | cases h)
+
+theorem steps_grows {code : Code} {σ τ : Vm} (h : Steps code σ τ) : Grows σ τ := by
+  induction h with
+  | refl => exact Grows.refl _
+  | cons hs _ ih => exact (step_grows hs).trans ih
+
+
+/-! ### moving the collecting prefix -/
+
+theorem curVars_coll (st : Nat → Option Frame) : ∀ {pre : List CtxState}, Collecting pre → ∀ (rest : List CtxState),
+    curVars st (pre ++ rest) = curVars st rest
+  | [], _, _ => rfl
+  | .args _ :: l, h, rest => by
+    simp only [List.cons_append, curVars]
+    exact curVars_coll st (pre := l) h rest
+  | .frame _ :: _, h, _ => h.elim
+  | .sframe _ :: _, h, _ => h.elim
+
+/-- the same activation under another collecting prefix (an argument-collecting state was pushed, filled or dropped) -/
+theorem Rel.repre {W : World} {sc : Scope} {pre pre' below : List CtxState} {s : St} {σ τ : Vm}
+    (h : Rel W sc pre below s σ) (hcoll : Collecting pre')
+    (hctx : ∀ fr, σ.ctx = pre ++ topState sc fr :: below → τ.ctx = pre' ++ topState sc fr :: below)
+    (ho : τ.out = σ.out) (hd : τ.data = σ.data) (hi : τ.dataIdx = σ.dataIdx) (hq : τ.queue = σ.queue)
+    (hf : τ.funRes = σ.funRes) (hg : τ.glob = σ.glob) (hs : τ.statics = σ.statics) : Rel W sc pre' below s τ := by
+  obtain ⟨fr, h1, h2, h3⟩ := h.ctx
+  have hc' := hctx fr h1
+  have hcf : τ.curFrame = some fr := by
+    have e := h2
+    unfold Vm.curFrame at e ⊢
+    rw [h1, curVars_coll _ h.coll] at e
+    rw [hc', hs, curVars_coll _ hcoll]; exact e
+  exact ⟨hcoll, h.self, ⟨fr, hc', hcf, h3⟩, h.typed, h.gl, by rw [hg]; exact h.glob, h.gtyped,
+    by rw [hs]; exact h.stat, h.scok, by rw [ho, h.out], by rw [hd, h.data], by rw [hi, h.dataIdx],
+    by rw [hq, h.queue], by rw [hf, h.funRes]⟩
+
 /-! ### argument lists -/
 
 /-- `PushNamed`: the value in A joins the collecting state on top -/
-theorem pushNamed_step (code : Code) (sc : Scope) (pre below : List CtxState) (s : St) (τ : Vm) (vs : List Val)
-    (pn : String) (pt : Ty) (p : Pos) (hi : code[τ.pc]? = some (CInstr.pushNamed pn pt, p))
-    (hr : Rel sc (.args vs :: pre) below s τ) :
-    ∃ υ, Vm.step code τ = .next υ ∧ υ.pc = τ.pc + 1 ∧ Rel sc (.args (vs ++ [τ.regs.a]) :: pre) below s υ ∧
+theorem pushNamed_step (W : World) (sc : Scope) (pre below : List CtxState) (s : St) (τ : Vm) (vs : List Val)
+    (pn : String) (pt : Ty) (p : Pos) (hi : W.code[τ.pc]? = some (CInstr.pushNamed pn pt, p))
+    (hr : Rel W sc (.args vs :: pre) below s τ) :
+    ∃ υ, Vm.step W.code τ = .next υ ∧ υ.pc = τ.pc + 1 ∧ Rel W sc (.args (vs ++ [τ.regs.a]) :: pre) below s υ ∧
       SameStacks τ υ := by
-  obtain ⟨fr, h1, h2⟩ := hr.ctx
-  have h1' : τ.ctx = .args vs :: (pre ++ .frame fr :: below) := by simpa using h1
-  refine ⟨Vm.advance { τ with ctx := .args (vs ++ [τ.regs.a]) :: (pre ++ .frame fr :: below) }, ?_, rfl, ?_,
+  obtain ⟨fr, h1, h2, h3⟩ := hr.ctx
+  have h1' : τ.ctx = .args vs :: (pre ++ topState sc fr :: below) := by simpa using h1
+  refine ⟨Vm.advance { τ with ctx := .args (vs ++ [τ.regs.a]) :: (pre ++ topState sc fr :: below) }, ?_, rfl, ?_,
     ⟨rfl, rfl, rfl, rfl, rfl, rfl, id⟩⟩
   · simp only [Vm.step, hi, pushArg, h1']
-  · exact ⟨hr.coll, ⟨fr, by simp [Vm.advance], h2⟩, hr.typed, hr.out, hr.data, hr.dataIdx, hr.queue, hr.funRes⟩
+  · refine hr.repre (pre' := .args (vs ++ [τ.regs.a]) :: pre) hr.coll ?_ rfl rfl rfl rfl rfl rfl rfl
+    intro fr' hfr'
+    have : pre ++ topState sc fr :: below = pre ++ topState sc fr' :: below := by
+      have e := h1.symm.trans hfr'
+      simpa using e
+    simp only [Vm.advance, List.cons_append, this]
 
 theorem case_args (W : World) (fuel : Nat) (ih : IHle W fuel) : ArgsIH W (fuel + 1) := by
   intro sc args off pre below vs0 s σ hc hpc hr hw
@@ -57,7 +202,7 @@ theorem case_args (W : World) (fuel : Nat) (ih : IHle W fuel) : ArgsIH W (fuel +
         rw [hp]; simp only [sizeExprTo]
         rw [← this]; congr 1
         by_cases h : e.ty = pt <;> simp [h]
-      obtain ⟨υ, sυ, hpυ, hrelυ, hssυ⟩ := pushNamed_step W.code sc pre below s1 τ vs0 pn pt e.pos hi hrel
+      obtain ⟨υ, sυ, hpυ, hrelυ, hssυ⟩ := pushNamed_step W sc pre below s1 τ vs0 pn pt e.pos hi hrel
       rw [hav] at hrelυ
       have hcr : CodeAt W.code υ.pc (pushArgs W.lay υ.pc rest) := by
         have := hc.append_right
@@ -81,7 +226,6 @@ theorem case_args (W : World) (fuel : Nat) (ih : IHle W fuel) : ArgsIH W (fuel +
         · rw [hp2, hpυ, hp]; simp only [sizeExprTo, sizePush]; omega
         · rw [List.append_assoc] at hrel2; exact hrel2
         · simp only [Args.params, List.map_cons, htag, htags]
-
 /-! ### the epilogue -/
 
 /-- everything but the program counter, the registers, the context stack, the by-reference queue and the function result
@@ -117,20 +261,20 @@ def RefsOk (fr : Frame) (callee : List Val) : Nat → Args → Prop
   | i, .cons e _ _ rest =>
     (∀ x t q, e = .var x t q → fr[i]? = some (some (callee.getD i (zeroOf t)))) ∧ RefsOk fr callee (i + 1) rest
 
-/-- every by-reference actual is a slot of the caller's scope at the variable's type, and the value that comes back has
-that type -/
+/-- every by-reference actual is a variable of the caller's scope (or a DIM SHARED one) at the variable's type, and the
+value that comes back has that type -/
 def WbOk (sc : Scope) (callee : List Val) : Nat → Args → Prop
   | _, .nil => True
   | i, .cons e _ _ rest =>
-    (∀ x t q, e = .var x t q → sc.slots[x]? = some t ∧ (callee.getD i (zeroOf t)).tag = t) ∧ WbOk sc callee (i + 1) rest
+    (∀ x t q, e = .var x t q → sc.slots.get? x = some t ∧ (callee.getD i (zeroOf t)).tag = t) ∧ WbOk sc callee (i + 1) rest
 
 theorem params_length : ∀ (args : Args), args.params.length = args.length
   | .nil => rfl
   | .cons _ _ _ rest => by simp [Args.params, Args.length, params_length rest]
 
-theorem refsOk_of (scd : Scope) (fr : Frame) (callee : List Val) (hfr : FrameRel scd fr callee) (sg : Sigs) (sl : List Ty) :
+theorem refsOk_of (scd : Scope) (fr : Frame) (callee : List Val) (hfr : FrameRel scd fr callee) (sg : Sigs) (sl : SlotTabs) :
     ∀ (args : Args) (i : Nat), AWf sg sl args →
-      (∀ (k : Nat) (pn : String) (pt : Ty), args.params[k]? = some (pn, pt) → scd.slots[i + k]? = some pt) →
+      (∀ (k : Nat) (pn : String) (pt : Ty), args.params[k]? = some (pn, pt) → scd.slots.loc[i + k]? = some pt) →
       i + args.length ≤ scd.np → RefsOk fr callee i args
   | .nil, _, _, _, _ => trivial
   | .cons e pn pt rest, i, hw, hsl, hnp => by
@@ -141,7 +285,7 @@ theorem refsOk_of (scd : Scope) (fr : Frame) (callee : List Val) (hfr : FrameRel
       subst he
       have ht : t = pt := hwr rfl
       subst ht
-      have hs : scd.slots[i]? = some t := by
+      have hs : scd.slots.loc[i]? = some t := by
         have := hsl 0 pn t (by simp [Args.params])
         simpa using this
       obtain ⟨v, hv⟩ := hfr.created i (by simp only [Args.length] at hnp; omega)
@@ -175,12 +319,14 @@ theorem wbOk_of (sc : Scope) (dslots : List Ty) (callee : List Val) (hty : Typed
       have := hsl (k + 1) pn' pt' (by simpa [Args.params] using hk)
       rw [show i + 1 + k = i + (k + 1) by omega]; exact this
 
+
 /-- `EnqueueToReturnStack i` for every by-reference actual, left to right -/
 theorem enq_phase (code : Code) (fr : Frame) (callee : List Val) : ∀ (args : Args) (i : Nat) (τ : Vm),
-    CodeAt code τ.pc (enqueues i args) → curVars τ.ctx = some fr → RefsOk fr callee i args →
+    CodeAt code τ.pc (enqueues i args) → τ.curFrame = some fr → RefsOk fr callee i args →
     ∃ υ, Steps code τ υ ∧ υ.pc = τ.pc + refCount args ∧ υ.queue = τ.queue ++ refVals i args callee ∧
-      υ.ctx = τ.ctx ∧ υ.funRes = τ.funRes ∧ υ.regs = τ.regs ∧ Frozen τ υ
-  | .nil, i, τ, _, _, _ => ⟨τ, Steps.refl τ, by simp [refCount], by simp [refVals], rfl, rfl, rfl, Frozen.refl τ⟩
+      υ.ctx = τ.ctx ∧ υ.glob = τ.glob ∧ υ.statics = τ.statics ∧ υ.funRes = τ.funRes ∧ υ.regs = τ.regs ∧ Frozen τ υ
+  | .nil, i, τ, _, _, _ =>
+    ⟨τ, Steps.refl τ, by simp [refCount], by simp [refVals], rfl, rfl, rfl, rfl, rfl, Frozen.refl τ⟩
   | .cons e pn pt rest, i, τ, hc, hcv, hok => by
     obtain ⟨hok1, hok2⟩ := hok
     cases e with
@@ -190,10 +336,10 @@ theorem enq_phase (code : Code) (fr : Frame) (callee : List Val) : ∀ (args : A
       have hv := hok1 x t q rfl
       let τ1 : Vm := Vm.advance { τ with queue := τ.queue ++ [callee.getD i (zeroOf t)] }
       have s1 : Vm.step code τ = .next τ1 := by simp only [Vm.step, h0, hcv, hv]; rfl
-      obtain ⟨υ, st, hp, hq, hcx, hf, hrg, hfz⟩ := enq_phase code fr callee rest (i + 1) τ1 (by
+      obtain ⟨υ, st, hp, hq, hcx, hgl, hst, hf, hrg, hfz⟩ := enq_phase code fr callee rest (i + 1) τ1 (by
         have := hc.append_right
         exact (by simpa using this : CodeAt code (τ.pc + 1) _)) hcv hok2
-      refine ⟨υ, Steps.cons s1 st, ?_, ?_, hcx, hf, hrg,
+      refine ⟨υ, Steps.cons s1 st, ?_, ?_, hcx, hgl, hst, hf, hrg,
         Frozen.trans (show Frozen τ τ1 from ⟨rfl, rfl, rfl, rfl, rfl, rfl, rfl, rfl, rfl, rfl⟩) hfz⟩
       · rw [hp]; simp only [τ1, Vm.advance, refCount, Proc.Expr.isRef, if_true]; omega
       · rw [hq]; simp only [τ1, Vm.advance, refVals, List.append_assoc, List.singleton_append]
@@ -213,67 +359,82 @@ theorem enq_phase (code : Code) (fr : Frame) (callee : List Val) : ∀ (args : A
       simp only [enqueues, Proc.Expr.isRef, Bool.false_eq_true, if_false, List.nil_append] at hc
       simpa [refCount, refVals, Proc.Expr.isRef] using enq_phase code fr callee rest (i + 1) τ hc hcv hok2
 
+/-- a store depends on the machine only through the context stack and the variable blocks -/
+theorem setV_cgs (σ σ' : Vm) (x : Var) (v : Val) (hc : σ'.ctx = σ.ctx) (hg : σ'.glob = σ.glob)
+    (hs : σ'.statics = σ.statics) :
+    (σ'.setV x v).ctx = (σ.setV x v).ctx ∧ (σ'.setV x v).glob = (σ.setV x v).glob ∧
+      (σ'.setV x v).statics = (σ.setV x v).statics := by
+  unfold Vm.setV Vm.setLocal
+  rw [hc]
+  cases x.shared <;> simp only [Bool.false_eq_true, if_true, if_false]
+  · cases curStatic σ.ctx <;> simp [hc, hg, hs]
+  · simp [hc, hg, hs]
+
+/-- the machine with an empty by-reference queue and no stashed result -/
+def clr (τ : Vm) : Vm := { τ with queue := [], funRes := none }
+
 /-- `DequeueFromReturnStack; VarPathName x; CopyAToVarPath` for every by-reference actual, left to right: the caller's
-frame receives what `Ref.writeBack` prescribes -/
-theorem wb_phase (code : Code) (sc : Scope) (pre below : List CtxState) (hcoll : Collecting pre) (callee : List Val) :
-    ∀ (args : Args) (i : Nat) (τ : Vm) (fr : Frame) (env : List Val) (tail : List Val),
-    CodeAt code τ.pc (writeBacks args) → τ.ctx = pre ++ .frame fr :: below → FrameRel sc fr env → Typed sc.slots env →
+variables (its own, or DIM SHARED ones) receive what `Ref.writeBack` prescribes -/
+theorem wb_phase (W : World) (sc : Scope) (pre below : List CtxState) (callee : List Val) :
+    ∀ (args : Args) (i : Nat) (τ : Vm) (sB : St) (tail : List Val),
+    CodeAt W.code τ.pc (writeBacks args) → Rel W sc pre below sB (clr τ) →
     τ.queue = refVals i args callee ++ tail → WbOk sc callee i args →
-    ∃ υ fr', Steps code τ υ ∧ υ.pc = τ.pc + 3 * refCount args ∧ υ.ctx = pre ++ .frame fr' :: below ∧
-      FrameRel sc fr' (Proc.Ref.writeBack args i callee env) ∧ Typed sc.slots (Proc.Ref.writeBack args i callee env) ∧
+    ∃ υ, Steps W.code τ υ ∧ υ.pc = τ.pc + 3 * refCount args ∧
+      Rel W sc pre below (Proc.Ref.writeBack args i callee sB) (clr υ) ∧
       υ.queue = tail ∧ υ.funRes = τ.funRes ∧ Frozen τ υ
-  | .nil, i, τ, fr, env, tail, _, hcx, hfr, hty, hq, _ =>
-    ⟨τ, fr, Steps.refl τ, by simp [refCount], hcx, by simpa [Proc.Ref.writeBack] using hfr,
-      by simpa [Proc.Ref.writeBack] using hty, by simpa [refVals] using hq, rfl, Frozen.refl τ⟩
-  | .cons e pn pt rest, i, τ, fr, env, tail, hc, hcx, hfr, hty, hq, hok => by
+  | .nil, i, τ, sB, tail, _, hrel, hq, _ =>
+    ⟨τ, Steps.refl τ, by simp [refCount], by simpa [Proc.Ref.writeBack] using hrel, by simpa [refVals] using hq, rfl,
+      Frozen.refl τ⟩
+  | .cons e pn pt rest, i, τ, sB, tail, hc, hrel, hq, hok => by
     obtain ⟨hok1, hok2⟩ := hok
     cases e with
     | var x t q =>
       obtain ⟨hx, hvt⟩ := hok1 x t q rfl
       simp only [writeBacks] at hc
       simp only [refVals, List.cons_append] at hq
-      have h0 : code[τ.pc]? = some (CInstr.dequeue, q) := hc.append_left.head
-      have h1 : code[τ.pc + 1]? = some (CInstr.varPath x t, q) := hc.append_left.tail.head
-      have h2 : code[τ.pc + 1 + 1]? = some (CInstr.copyAToVarPath, q) := hc.append_left.tail.tail.head
+      have h0 : W.code[τ.pc]? = some (CInstr.dequeue, q) := hc.append_left.head
       let v := callee.getD i (zeroOf t)
       let τ1 : Vm := Vm.advance { Vm.setA τ v with queue := refVals (i + 1) rest callee ++ tail }
-      let τ2 : Vm := Vm.advance { τ1 with paths := (x, t) :: τ1.paths }
-      let τ3 : Vm := Vm.advance { τ2 with ctx := pre ++ .frame (setVar fr x v) :: below, paths := τ.paths }
-      have s1 : Vm.step code τ = .next τ1 := by simp only [Vm.step, h0, hq]; rfl
-      have s2 : Vm.step code τ1 = .next τ2 := by simp only [Vm.step, τ1, Vm.advance, Vm.setA, h1]; rfl
-      have s3 : Vm.step code τ2 = .next τ3 := by
-        simp only [Vm.step, τ2, τ1, Vm.advance, Vm.setA, h2, hcx, modCur_pre _ hcoll]; rfl
-      obtain ⟨υ, fr', st, hp, hcx', hfr', hty', hq', hf', hfz⟩ :=
-        wb_phase code sc pre below hcoll callee rest (i + 1) τ3 (setVar fr x v) (env.set x v) tail
-          (by have := hc.append_right; simpa [τ3, τ2, τ1, Vm.advance, Vm.setA, Nat.add_assoc] using this) rfl
-          (hfr.set hx hty.1 v) (RbThm.C01Sim.SimRead.typed_set hty hx hvt) rfl hok2
-      refine ⟨υ, fr', Steps.cons s1 (Steps.cons s2 (Steps.cons s3 st)), ?_, hcx', ?_, ?_, hq', ?_,
-        Frozen.trans (show Frozen τ τ3 from ⟨rfl, rfl, rfl, rfl, rfl, rfl, rfl, rfl, rfl, rfl⟩) hfz⟩
-      · rw [hp]; simp only [τ3, τ2, τ1, Vm.advance, Vm.setA, refCount, Proc.Expr.isRef, if_true]; omega
-      · simp only [Proc.Ref.writeBack]; exact hfr'
-      · simp only [Proc.Ref.writeBack]; exact hty'
-      · exact hf'
+      have s1 : Vm.step W.code τ = .next τ1 := by simp only [Vm.step, h0, hq]; rfl
+      have hcs : CodeAt W.code τ1.pc (storeVar x t q) := by
+        have := hc.append_left.tail
+        exact this
+      have st2 := store_steps W.code x t q τ1 hcs
+      obtain ⟨_, _, k3, k4, k5, k6, k7, k8, k9, k10, k11, k12, k13, k14⟩ := setV_same τ1 x τ1.regs.a
+      obtain ⟨c1, c2, c3⟩ := setV_cgs (clr τ) τ1 x v rfl rfl rfl
+      have hrel3 : Rel W sc pre below (sB.set x v) (clr (storeSt τ1 x)) :=
+        hrel.store hx hvt c1 k6 k8 k9 rfl rfl c2 c3
+      obtain ⟨υ, st, hp, hrelυ, hq', hf', hfz⟩ :=
+        wb_phase W sc pre below callee rest (i + 1) (storeSt τ1 x) (sB.set x v) tail
+          (by
+            have := hc.append_right
+            rw [storeSt_pc]
+            exact this.at (by simp [τ1, Vm.advance, Vm.setA])) hrel3 k10 hok2
+      refine ⟨υ, Steps.cons s1 (st2.trans st), ?_, ?_, hq', ?_, Frozen.trans ?_ hfz⟩
+      · rw [hp, storeSt_pc]; simp only [τ1, Vm.advance, Vm.setA, refCount, Proc.Expr.isRef, if_true]; omega
+      · simp only [Proc.Ref.writeBack]; exact hrelυ
+      · rw [hf']; exact k11
+      · exact ⟨k3, k4, k5, k6, k7, k8, k9, k12, k13, k14⟩
     | lit v q =>
       simp only [writeBacks] at hc
       simpa [refCount, refVals, Proc.Expr.isRef, Proc.Ref.writeBack] using
-        wb_phase code sc pre below hcoll callee rest (i + 1) τ fr env tail hc hcx hfr hty (by simpa [refVals] using hq) hok2
+        wb_phase W sc pre below callee rest (i + 1) τ sB tail hc hrel (by simpa [refVals] using hq) hok2
     | un op e' q =>
       simp only [writeBacks] at hc
       simpa [refCount, refVals, Proc.Expr.isRef, Proc.Ref.writeBack] using
-        wb_phase code sc pre below hcoll callee rest (i + 1) τ fr env tail hc hcx hfr hty (by simpa [refVals] using hq) hok2
+        wb_phase W sc pre below callee rest (i + 1) τ sB tail hc hrel (by simpa [refVals] using hq) hok2
     | bin op l r t q =>
       simp only [writeBacks] at hc
       simpa [refCount, refVals, Proc.Expr.isRef, Proc.Ref.writeBack] using
-        wb_phase code sc pre below hcoll callee rest (i + 1) τ fr env tail hc hcx hfr hty (by simpa [refVals] using hq) hok2
+        wb_phase W sc pre below callee rest (i + 1) τ sB tail hc hrel (by simpa [refVals] using hq) hok2
     | paren e' q =>
       simp only [writeBacks] at hc
       simpa [refCount, refVals, Proc.Expr.isRef, Proc.Ref.writeBack] using
-        wb_phase code sc pre below hcoll callee rest (i + 1) τ fr env tail hc hcx hfr hty (by simpa [refVals] using hq) hok2
+        wb_phase W sc pre below callee rest (i + 1) τ sB tail hc hrel (by simpa [refVals] using hq) hok2
     | callFn f a t q =>
       simp only [writeBacks] at hc
       simpa [refCount, refVals, Proc.Expr.isRef, Proc.Ref.writeBack] using
-        wb_phase code sc pre below hcoll callee rest (i + 1) τ fr env tail hc hcx hfr hty (by simpa [refVals] using hq) hok2
-
+        wb_phase W sc pre below callee rest (i + 1) τ sB tail hc hrel (by simpa [refVals] using hq) hok2
 /-! ### the callee's activation environment -/
 
 theorem freshEnv_get_lt (slots : List Ty) (vals : List Val) (x : Nat) (h : x < vals.length) :
@@ -297,8 +458,8 @@ theorem slots_ge_params (d : ProcDecl SStmt) (hs : SlotsOk d) : d.params.length 
     have := (List.getElem?_eq_some_iff.mp this).1
     omega
 
-theorem frameRel_fresh (d : ProcDecl SStmt) (vals : List Val) (hlen : vals.length = d.params.length) :
-    FrameRel (procScope d) (vals.map some) (Proc.Ref.freshEnv d.slots vals) := by
+theorem frameRel_fresh (gl : List Ty) (f : Nat) (d : ProcDecl SStmt) (vals : List Val) (hlen : vals.length = d.params.length) :
+    FrameRel (procScope gl f d) (vals.map some) (Proc.Ref.freshEnv d.slots vals) := by
   refine ⟨?_, ?_⟩
   · intro x t hs
     simp only [procScope] at hs
@@ -336,9 +497,95 @@ theorem typed_fresh (d : ProcDecl SStmt) (vals : List Val) (hs : SlotsOk d)
     rw [← h1, h3]
   · exact ⟨zeroOf t, freshEnv_get_ge _ _ _ t (by omega) hx, zeroOf_tag t⟩
 
+/-! ### the persistent environment of a STATIC procedure at the start of a call -/
+
+theorem rebind_get_lt (old vals : List Val) (x : Nat) (h : x < vals.length) :
+    (Proc.Ref.rebind old vals)[x]? = vals[x]? := by
+  simp only [Proc.Ref.rebind]
+  rw [List.getElem?_append_left h]
+
+theorem rebind_get_ge (old vals : List Val) (x : Nat) (h : vals.length ≤ x) :
+    (Proc.Ref.rebind old vals)[x]? = old[x]? := by
+  simp only [Proc.Ref.rebind]
+  rw [List.getElem?_append_right h, List.getElem?_drop]
+  congr 1; omega
+
+theorem applyArgs_get_lt (fr : Frame) (vals : List Val) (x : Nat) (h : x < vals.length) :
+    (applyArgs fr vals)[x]? = some (some vals[x]) := by
+  simp only [applyArgs]
+  rw [List.getElem?_append_left (by simpa using h), List.getElem?_map, List.getElem?_eq_getElem h]; rfl
+
+theorem applyArgs_get_ge (fr : Frame) (vals : List Val) (x : Nat) (h : vals.length ≤ x) :
+    (applyArgs fr vals)[x]? = fr[x]? := by
+  simp only [applyArgs]
+  rw [List.getElem?_append_right (by simpa using h), List.getElem?_drop]
+  simp only [List.length_map]
+  congr 1; omega
+
+/-- the block of a STATIC procedure after `PushStaticStack` -/
+def newBlock (ofr : Option Frame) (vals : List Val) : Frame :=
+  match ofr with
+  | some fr => applyArgs fr vals
+  | none => vals.map some
+
+theorem newBlock_get_lt (ofr : Option Frame) (vals : List Val) (x : Nat) (h : x < vals.length) :
+    (newBlock ofr vals)[x]? = some (some vals[x]) := by
+  cases ofr with
+  | some fr => exact applyArgs_get_lt fr vals x h
+  | none => simp only [newBlock]; rw [List.getElem?_map, List.getElem?_eq_getElem h]; rfl
+
+theorem newBlock_getVar_ge (ofr : Option Frame) (vals : List Val) (x : Nat) (t : Ty) (h : vals.length ≤ x) :
+    getVar (newBlock ofr vals) x t = ogetVar ofr x t := by
+  cases ofr with
+  | some fr => simp only [newBlock, ogetVar, getVar, applyArgs_get_ge fr vals x h]
+  | none =>
+    have : (vals.map some)[x]? = none := List.getElem?_eq_none (by simpa using h)
+    simp only [newBlock, ogetVar, getVar, this]
+
+theorem frameRel_rebind (gl : List Ty) (f : Nat) (d : ProcDecl SStmt) (ofr : Option Frame) (old vals : List Val)
+    (hlen : vals.length = d.params.length) (hst : StatRel d.slots ofr old) :
+    FrameRel (procScope gl f d) (newBlock ofr vals) (Proc.Ref.rebind old vals) := by
+  refine ⟨?_, ?_⟩
+  · intro x t hs
+    simp only [procScope] at hs
+    by_cases hx : x < vals.length
+    · simp only [getVar, newBlock_get_lt ofr vals x hx, List.getD, rebind_get_lt _ _ _ hx, List.getElem?_eq_getElem hx,
+        Option.getD_some]
+    · rw [newBlock_getVar_ge ofr vals x t (by omega), hst.get x t hs]
+      simp only [List.getD, rebind_get_ge old vals x (by omega)]
+  · intro i hi
+    simp only [procScope] at hi
+    exact ⟨vals[i]'(by omega), newBlock_get_lt ofr vals i (by omega)⟩
+
+theorem typed_rebind (d : ProcDecl SStmt) (old vals : List Val) (hs : SlotsOk d)
+    (htags : vals.map Val.tag = d.params.map (·.2)) (hold : Typed d.slots old) :
+    Typed d.slots (Proc.Ref.rebind old vals) := by
+  have hlen : vals.length = d.params.length := by
+    have := congrArg List.length htags
+    simpa using this
+  have hle := slots_ge_params d hs
+  have hol := hold.1
+  refine ⟨by simp only [Proc.Ref.rebind, List.length_append, List.length_drop]; omega, ?_⟩
+  intro x t hx
+  by_cases hxv : x < vals.length
+  · refine ⟨vals[x], by rw [rebind_get_lt _ _ _ hxv, List.getElem?_eq_getElem hxv], ?_⟩
+    have hxp : x < d.params.length := by omega
+    have h1 : (vals.map Val.tag)[x]? = some vals[x].tag := by
+      rw [List.getElem?_map, List.getElem?_eq_getElem hxv]; rfl
+    have h2 : (d.params.map (·.2))[x]? = some (d.params[x]).2 := by
+      rw [List.getElem?_map, List.getElem?_eq_getElem hxp]; rfl
+    rw [htags, h2] at h1
+    have h3 := hs.1 x (d.params[x]).1 (d.params[x]).2 (by rw [List.getElem?_eq_getElem hxp])
+    rw [hx] at h3
+    injection h1 with h1
+    injection h3 with h3
+    rw [← h1, h3]
+  · obtain ⟨w, hw, hwt⟩ := hold.2 x t hx
+    exact ⟨w, by rw [rebind_get_ge old vals x (by omega)]; exact hw, hwt⟩
+
 /-- the label of a procedure (and, for a FUNCTION, the instruction that loads the default result): control arrives at
 the body with everything but the registers as it was -/
-theorem proc_entry (code : Code) (lay : List Nat) (tgt : Nat) (d : ProcDecl SStmt) (τ : Vm)
+theorem proc_entry (code : Code) (lay : Layout) (tgt : Nat) (d : ProcDecl SStmt) (τ : Vm)
     (hc : CodeAt code tgt (compileProc lay tgt d)) (hpc : τ.pc = tgt) :
     ∃ k r, Steps code τ { τ with pc := tgt + k, regs := r } ∧
       CodeAt code (tgt + k) (compileStmt lay "" 0 0 (tgt + k) d.body) ∧
@@ -369,65 +616,128 @@ theorem proc_entry (code : Code) (lay : List Nat) (tgt : Nat) (d : ProcDecl SStm
       simp only [List.length_append, List.length_cons, List.length_nil, len_stmt] at this
       rw [← this]; congr 1; omega
 
-/-- the epilogue of a call, from the state in which the callee has returned (its frame still on top) -/
-theorem epilogue (code : Code) (sc scd : Scope) (pre below : List CtxState) (args : Args) (p p' : Pos) (res : Option Ty)
-    (ra : Nat) (τ : Vm) (env1 : List Val) (s2 : St) (fr1 : Frame) (tr : List Pos) (sg : Sigs)
-    (hc : CodeAt code ra (enqueues 0 args ++
+/-! ### back in the caller -/
+
+/-- after `PopStack` the machine is again in the caller's activation: its own environment is the one it had at the call
+(an ordinary frame below the callee's state is untouched), or — when the caller is a STATIC procedure — the current
+content of its block; the DIM SHARED variables and the STATIC blocks are as the callee left them -/
+theorem rel_back (W : World) (sc scd : Scope) (pre below : List CtxState) (s1 s2 : St) (τ υ : Vm) (fr1 : Frame)
+    (hrel : Rel W scd [] (pre ++ topState sc fr1 :: below) s2 τ) (hcoll : Collecting pre)
+    (hs1 : s1.self = sc.self) (hgl : sc.slots.glob = W.P.gslots)
+    (hscok : ∀ f, sc.self = some f → ∃ d, W.P.procs[f]? = some d ∧ d.static = true ∧ sc.slots.loc = d.slots)
+    (hns : sc.self = none → FrameRel sc fr1 s1.env ∧ Typed sc.slots.loc s1.env)
+    (hst : ∀ g, sc.self = some g → ∃ fr, τ.statics g = some fr ∧ ∀ i, i < sc.np → ∃ w, fr[i]? = some (some w))
+    (hctx : υ.ctx = pre ++ topState sc fr1 :: below) (hg : υ.glob = τ.glob) (hs : υ.statics = τ.statics)
+    (ho : υ.out = τ.out) (hd : υ.data = τ.data) (hi : υ.dataIdx = τ.dataIdx) (hq : υ.queue = [])
+    (hf : υ.funRes = none) :
+    Rel W sc pre below { s2 with env := s1.env, self := s1.self } υ := by
+  cases hself : sc.self with
+  | none =>
+    obtain ⟨hfr, hty⟩ := hns hself
+    have hs0 : s1.self = none := by rw [hs1, hself]
+    have hloc : ({ s2 with env := s1.env, self := s1.self } : St).locals = s1.env := by
+      simp [Proc.Ref.St.locals, hs0]
+    have htop : topState sc fr1 = .frame fr1 := by simp [topState, hself]
+    refine ⟨hcoll, by simp [hs0, hself], ⟨fr1, hctx, ?_, by rw [hloc]; exact hfr⟩, by rw [hloc]; exact hty, hgl,
+      by rw [hg]; exact hrel.glob, hrel.gtyped, by rw [hs]; exact hrel.stat, hscok, by rw [ho, hrel.out],
+      by rw [hd, hrel.data], by rw [hi, hrel.dataIdx], hq, hf⟩
+    unfold Vm.curFrame; rw [hctx, htop]; exact curVars_pre _ hcoll _ _
+  | some g =>
+    obtain ⟨fr, hfr, hcr⟩ := hst g hself
+    obtain ⟨d, hd', hdst, hsl⟩ := hscok g hself
+    have hs0 : s1.self = some g := by rw [hs1, hself]
+    have hloc : ({ s2 with env := s1.env, self := s1.self } : St).locals = s2.statics g := by
+      simp [Proc.Ref.St.locals, hs0]
+    have htop : topState sc fr1 = .sframe g := by simp [topState, hself]
+    have hsr := hrel.stat g d hd' hdst
+    have hfrel : FrameRel sc fr (s2.statics g) := by
+      refine ⟨fun x t hx => ?_, hcr⟩
+      rw [hsl] at hx
+      have := hsr.get x t hx
+      simpa [ogetVar, hfr] using this
+    refine ⟨hcoll, by simp [hs0, hself], ⟨fr, by rw [hctx, htop, topState, hself], ?_, by rw [hloc]; exact hfrel⟩,
+      by rw [hloc, hsl]; exact hsr.typed, hgl,
+      by rw [hg]; exact hrel.glob, hrel.gtyped, by rw [hs]; exact hrel.stat, hscok, by rw [ho, hrel.out],
+      by rw [hd, hrel.data], by rw [hi, hrel.dataIdx], hq, hf⟩
+    unfold Vm.curFrame; rw [hctx, htop, hs, curVars_pre_s _ hcoll]; exact hfr
+
+/-- `PopStack` on the callee's normal state (an ordinary frame or a state on a STATIC block) -/
+theorem popStack_step (code : Code) (scd : Scope) (fr2 : Frame) (c : CtxState) (rest : List CtxState) (p p' : Pos)
+    (tr : List Pos) (υ : Vm) (hi : code[υ.pc]? = some (CInstr.popStack, p))
+    (hctx : υ.ctx = topState scd fr2 :: c :: rest) (htr : υ.trace = p' :: tr) :
+    Vm.step code υ = .next (Vm.advance { υ with ctx := c :: rest, trace := tr }) := by
+  cases hsd : scd.self with
+  | none =>
+    have e : υ.ctx = .frame fr2 :: c :: rest := by rw [hctx]; simp [topState, hsd]
+    simp only [Vm.step, hi, e, htr]
+  | some g =>
+    have e : υ.ctx = .sframe g :: c :: rest := by rw [hctx]; simp [topState, hsd]
+    simp only [Vm.step, hi, e, htr]
+
+/-- the epilogue of a call, from the state in which the callee has returned (its normal state still on top) -/
+theorem epilogue (W : World) (sc scd : Scope) (pre below : List CtxState) (args : Args) (p p' : Pos) (res : Option Ty)
+    (ra : Nat) (τ : Vm) (s1 s2 : St) (fr1 : Frame) (tr : List Pos)
+    (hc : CodeAt W.code ra (enqueues 0 args ++
       (match res with | some t => [(CInstr.stashResult args.length t, p)] | none => []) ++
       [(CInstr.popStack, p)] ++ writeBacks args ++ (match res with | some _ => [(CInstr.unStash, p)] | none => [])))
-    (hpc : τ.pc = ra) (hrel : Rel scd [] (pre ++ .frame fr1 :: below) s2 τ) (hcoll : Collecting pre)
-    (hfr1 : FrameRel sc fr1 env1) (hty1 : Typed sc.slots env1) (htr : τ.trace = p' :: tr)
-    (haw : AWf sg sc.slots args)
-    (hsl : ∀ (k : Nat) (pn : String) (pt : Ty), args.params[k]? = some (pn, pt) → scd.slots[0 + k]? = some pt)
+    (hpc : τ.pc = ra) (hrel : Rel W scd [] (pre ++ topState sc fr1 :: below) s2 τ) (hcoll : Collecting pre)
+    (hs1 : s1.self = sc.self) (hgl : sc.slots.glob = W.P.gslots)
+    (hscok : ∀ f, sc.self = some f → ∃ d, W.P.procs[f]? = some d ∧ d.static = true ∧ sc.slots.loc = d.slots)
+    (hns : sc.self = none → FrameRel sc fr1 s1.env ∧ Typed sc.slots.loc s1.env)
+    (hst : ∀ g, sc.self = some g → ∃ fr, τ.statics g = some fr ∧ ∀ i, i < sc.np → ∃ w, fr[i]? = some (some w))
+    (htr : τ.trace = p' :: tr) (haw : AWf W.sg sc.slots args)
+    (hsl : ∀ (k : Nat) (pn : String) (pt : Ty), args.params[k]? = some (pn, pt) → scd.slots.loc[0 + k]? = some pt)
     (hnp : 0 + args.length ≤ scd.np)
-    (hrs : ∀ t, res = some t → scd.slots[args.length]? = some t) :
-    ∃ υ, Steps code τ υ ∧
+    (hrs : ∀ t, res = some t → scd.slots.loc[args.length]? = some t) :
+    ∃ υ, Steps W.code τ υ ∧
       υ.pc = ra + (refCount args + (if res.isSome then 1 else 0) + 1 + 3 * refCount args +
         (if res.isSome then 1 else 0)) ∧
-      Rel sc pre below { s2 with env := Proc.Ref.writeBack args 0 s2.env env1 } υ ∧ υ.trace = tr ∧
+      Rel W sc pre below (Proc.Ref.writeBack args 0 s2.locals { s2 with env := s1.env, self := s1.self }) υ ∧
+      υ.trace = tr ∧
       υ.regStack = τ.regStack ∧ υ.vals = τ.vals ∧ υ.paths = τ.paths ∧ υ.rets = τ.rets ∧ υ.marks = τ.marks ∧
       υ.skipNewline = τ.skipNewline ∧
-      ∀ t, res = some t → υ.regs.a = s2.env.getD args.length (zeroOf t) ∧
-        (s2.env.getD args.length (zeroOf t)).tag = t := by
+      ∀ t, res = some t → υ.regs.a = s2.locals.getD args.length (zeroOf t) ∧
+        (s2.locals.getD args.length (zeroOf t)).tag = t := by
   subst hpc
-  obtain ⟨fr2, hctx, hfr2⟩ := hrel.ctx
+  obtain ⟨fr2, hctx, hcf2, hfr2⟩ := hrel.ctx
   simp only [List.nil_append] at hctx
-  have hcv : curVars τ.ctx = some fr2 := by rw [hctx]; rfl
-  have hrefs := refsOk_of scd fr2 s2.env hfr2 sg sc.slots args 0 haw hsl hnp
-  have hwb := wbOk_of sc scd.slots s2.env hrel.typed sg args 0 haw hsl
-  obtain ⟨c, rest, hcr⟩ : ∃ c rest, pre ++ .frame fr1 :: below = c :: rest := by
+  have hrefs := refsOk_of scd fr2 s2.locals hfr2 W.sg sc.slots args 0 haw hsl hnp
+  have hwb := wbOk_of sc scd.slots.loc s2.locals hrel.typed W.sg args 0 haw hsl
+  obtain ⟨c, rest, hcr⟩ : ∃ c rest, pre ++ topState sc fr1 :: below = c :: rest := by
     cases pre with
     | nil => exact ⟨_, _, rfl⟩
     | cons a l => exact ⟨_, _, rfl⟩
   cases res with
   | none =>
     simp only [List.append_nil] at hc
-    obtain ⟨υ1, st1, hp1, hq1, hcx1, hf1, hrg1, hfz1⟩ :=
-      enq_phase code fr2 s2.env args 0 τ hc.append_left.append_left hcv hrefs
-    have hpop : code[υ1.pc]? = some (CInstr.popStack, p) := by
+    obtain ⟨υ1, st1, hp1, hq1, hcx1, hgl1, hst1, hf1, hrg1, hfz1⟩ :=
+      enq_phase W.code fr2 s2.locals args 0 τ hc.append_left.append_left hcf2 hrefs
+    have hpop : W.code[υ1.pc]? = some (CInstr.popStack, p) := by
       have := hc.append_left.append_right.head
       rw [len_enqueues] at this
       rw [hp1]; exact this
-    let υ2 : Vm := Vm.advance { υ1 with ctx := pre ++ .frame fr1 :: below, trace := tr }
-    have s2' : Vm.step code υ1 = .next υ2 := by
-      have e1 : υ1.ctx = .frame fr2 :: c :: rest := by rw [hcx1, hctx, hcr]
-      have e2 : υ1.trace = p' :: tr := by rw [hfz1.trace, htr]
-      simp only [Vm.step, hpop, e1, e2, υ2, hcr]
-    have hq2 : υ2.queue = refVals 0 args s2.env ++ [] := by
+    let υ2 : Vm := Vm.advance { υ1 with ctx := c :: rest, trace := tr }
+    have s2' : Vm.step W.code υ1 = .next υ2 :=
+      popStack_step W.code scd fr2 c rest p p' tr υ1 hpop (by rw [hcx1, hctx, hcr]) (by rw [hfz1.trace, htr])
+    have hq2 : υ2.queue = refVals 0 args s2.locals ++ [] := by
       simp only [υ2, Vm.advance, hq1, hrel.queue, List.nil_append, List.append_nil]
-    have hcw : CodeAt code υ2.pc (writeBacks args) := by
+    have hcw : CodeAt W.code υ2.pc (writeBacks args) := by
       have := hc.append_right
       simp only [List.length_append, List.length_singleton, len_enqueues] at this
       simp only [υ2, Vm.advance, hp1]
       exact this.at (by omega)
-    obtain ⟨υ3, fr', st3, hp3, hcx3, hfr3, hty3, hq3, hf3, hfz3⟩ :=
-      wb_phase code sc pre below hcoll s2.env args 0 υ2 fr1 env1 [] hcw rfl hfr1 hty1 hq2 hwb
+    have hback : Rel W sc pre below { s2 with env := s1.env, self := s1.self } (clr υ2) :=
+      rel_back W sc scd pre below s1 s2 τ (clr υ2) fr1 hrel hcoll hs1 hgl hscok hns hst
+        (by simp only [clr, υ2, Vm.advance, hcr]) (by simp only [clr, υ2, Vm.advance, hgl1])
+        (by simp only [clr, υ2, Vm.advance, hst1]) (by simp only [clr, υ2, Vm.advance]; exact hfz1.out)
+        (by simp only [clr, υ2, Vm.advance]; exact hfz1.data) (by simp only [clr, υ2, Vm.advance]; exact hfz1.dataIdx)
+        rfl rfl
+    obtain ⟨υ3, st3, hp3, hrel3, hq3, hf3, hfz3⟩ :=
+      wb_phase W sc pre below s2.locals args 0 υ2 { s2 with env := s1.env, self := s1.self } [] hcw hback hq2 hwb
+    have hf3' : υ3.funRes = none := by rw [hf3]; simp only [υ2, Vm.advance]; rw [hf1, hrel.funRes]
     refine ⟨υ3, (st1.trans (Steps.one s2')).trans st3, ?_, ?_, ?_, ?_, ?_, ?_, ?_, ?_, ?_, ?_⟩
     · rw [hp3]; simp only [υ2, Vm.advance, hp1, Option.isSome_none, Bool.false_eq_true, if_false]; omega
-    · exact ⟨hcoll, ⟨fr', hcx3, hfr3⟩, hty3, by rw [hfz3.out]; simp only [υ2, Vm.advance]; rw [hfz1.out, hrel.out],
-        by rw [hfz3.data]; simp only [υ2, Vm.advance]; rw [hfz1.data, hrel.data],
-        by rw [hfz3.dataIdx]; simp only [υ2, Vm.advance]; rw [hfz1.dataIdx, hrel.dataIdx], hq3,
-        by rw [hf3]; simp only [υ2, Vm.advance]; rw [hf1, hrel.funRes]⟩
+    · exact hrel3.same rfl rfl rfl rfl hq3 hf3'
     · exact hfz3.trace
     · rw [hfz3.regStack]; simp only [υ2, Vm.advance]; exact hfz1.regStack
     · rw [hfz3.vals]; simp only [υ2, Vm.advance]; exact hfz1.vals
@@ -438,54 +748,54 @@ theorem epilogue (code : Code) (sc scd : Scope) (pre below : List CtxState) (arg
     · intro t ht; cases ht
   | some t =>
     simp only at hc
-    obtain ⟨υ1, st1, hp1, hq1, hcx1, hf1, hrg1, hfz1⟩ :=
-      enq_phase code fr2 s2.env args 0 τ hc.append_left.append_left.append_left.append_left hcv hrefs
-    have hstash : code[υ1.pc]? = some (CInstr.stashResult args.length t, p) := by
+    obtain ⟨υ1, st1, hp1, hq1, hcx1, hgl1, hst1, hf1, hrg1, hfz1⟩ :=
+      enq_phase W.code fr2 s2.locals args 0 τ hc.append_left.append_left.append_left.append_left hcf2 hrefs
+    have hstash : W.code[υ1.pc]? = some (CInstr.stashResult args.length t, p) := by
       have := hc.append_left.append_left.append_left.append_right.head
       rw [len_enqueues] at this
       rw [hp1]; exact this
     have hrt := hrs t rfl
-    let rv := s2.env.getD args.length (zeroOf t)
+    let rv := s2.locals.getD args.length (zeroOf t)
     let υ1' : Vm := Vm.advance { υ1 with funRes := some rv }
-    have s1' : Vm.step code υ1 = .next υ1' := by
-      have e1 : curVars υ1.ctx = some fr2 := by rw [hcx1]; exact hcv
+    have s1' : Vm.step W.code υ1 = .next υ1' := by
+      have e1 : υ1.curFrame = some fr2 := by rw [curFrame_congr hcx1 hst1]; exact hcf2
       simp only [Vm.step, hstash, e1, hfr2.get _ t hrt]; rfl
-    have hpop : code[υ1'.pc]? = some (CInstr.popStack, p) := by
+    have hpop : W.code[υ1'.pc]? = some (CInstr.popStack, p) := by
       have := hc.append_left.append_left.append_right.head
       simp only [List.length_append, List.length_singleton, len_enqueues] at this
       simp only [υ1', Vm.advance, hp1]; exact this
-    let υ2 : Vm := Vm.advance { υ1' with ctx := pre ++ .frame fr1 :: below, trace := tr }
-    have s2' : Vm.step code υ1' = .next υ2 := by
-      have e1 : υ1'.ctx = .frame fr2 :: c :: rest := by simp only [υ1', Vm.advance]; rw [hcx1, hctx, hcr]
-      have e2 : υ1'.trace = p' :: tr := by simp only [υ1', Vm.advance]; rw [hfz1.trace, htr]
-      simp only [Vm.step, hpop, e1, e2, υ2, hcr]
-    have hq2 : υ2.queue = refVals 0 args s2.env ++ [] := by
+    let υ2 : Vm := Vm.advance { υ1' with ctx := c :: rest, trace := tr }
+    have s2' : Vm.step W.code υ1' = .next υ2 :=
+      popStack_step W.code scd fr2 c rest p p' tr υ1' hpop (by simp only [υ1', Vm.advance]; rw [hcx1, hctx, hcr])
+        (by simp only [υ1', Vm.advance]; rw [hfz1.trace, htr])
+    have hq2 : υ2.queue = refVals 0 args s2.locals ++ [] := by
       simp only [υ2, υ1', Vm.advance, hq1, hrel.queue, List.nil_append, List.append_nil]
-    have hcw : CodeAt code υ2.pc (writeBacks args) := by
+    have hcw : CodeAt W.code υ2.pc (writeBacks args) := by
       have := hc.append_left.append_right
       simp only [List.length_append, List.length_singleton, len_enqueues] at this
       simp only [υ2, υ1', Vm.advance, hp1]
       exact this.at (by omega)
-    obtain ⟨υ3, fr', st3, hp3, hcx3, hfr3, hty3, hq3, hf3, hfz3⟩ :=
-      wb_phase code sc pre below hcoll s2.env args 0 υ2 fr1 env1 [] hcw rfl hfr1 hty1 hq2 hwb
-    have hun : code[υ3.pc]? = some (CInstr.unStash, p) := by
+    have hback : Rel W sc pre below { s2 with env := s1.env, self := s1.self } (clr υ2) :=
+      rel_back W sc scd pre below s1 s2 τ (clr υ2) fr1 hrel hcoll hs1 hgl hscok hns hst
+        (by simp only [clr, υ2, υ1', Vm.advance, hcr]) (by simp only [clr, υ2, υ1', Vm.advance, hgl1])
+        (by simp only [clr, υ2, υ1', Vm.advance, hst1]) (by simp only [clr, υ2, υ1', Vm.advance]; exact hfz1.out)
+        (by simp only [clr, υ2, υ1', Vm.advance]; exact hfz1.data)
+        (by simp only [clr, υ2, υ1', Vm.advance]; exact hfz1.dataIdx) rfl rfl
+    obtain ⟨υ3, st3, hp3, hrel3, hq3, hf3, hfz3⟩ :=
+      wb_phase W sc pre below s2.locals args 0 υ2 { s2 with env := s1.env, self := s1.self } [] hcw hback hq2 hwb
+    have hun : W.code[υ3.pc]? = some (CInstr.unStash, p) := by
       have := hc.append_right.head
       simp only [List.length_append, List.length_singleton, len_enqueues, len_writeBacks] at this
       rw [hp3]; simp only [υ2, υ1', Vm.advance, hp1]
       rw [← this]; congr 1; omega
     let υ4 : Vm := Vm.advance { Vm.setA υ3 rv with funRes := none }
-    have s4 : Vm.step code υ3 = .next υ4 := by
+    have s4 : Vm.step W.code υ3 = .next υ4 := by
       have e1 : υ3.funRes = some rv := hf3
       simp only [Vm.step, hun, e1]; rfl
     refine ⟨υ4, ((st1.trans (Steps.cons s1' (Steps.one s2'))).trans st3).trans (Steps.one s4),
       ?_, ?_, ?_, ?_, ?_, ?_, ?_, ?_, ?_, ?_⟩
     · simp only [υ4, Vm.advance, Vm.setA, hp3, υ2, υ1', hp1, Option.isSome_some, if_true]; omega
-    · exact ⟨hcoll, ⟨fr', hcx3, hfr3⟩, hty3,
-        by simp only [υ4, Vm.advance, Vm.setA]; rw [hfz3.out]; simp only [υ2, υ1', Vm.advance]; rw [hfz1.out, hrel.out],
-        by simp only [υ4, Vm.advance, Vm.setA]; rw [hfz3.data]; simp only [υ2, υ1', Vm.advance]; rw [hfz1.data, hrel.data],
-        by simp only [υ4, Vm.advance, Vm.setA]; rw [hfz3.dataIdx]; simp only [υ2, υ1', Vm.advance]
-           rw [hfz1.dataIdx, hrel.dataIdx],
-        hq3, rfl⟩
+    · exact hrel3.same rfl rfl rfl rfl hq3 rfl
     · exact hfz3.trace
     · simp only [υ4, Vm.advance, Vm.setA]; rw [hfz3.regStack]; simp only [υ2, υ1', Vm.advance]; exact hfz1.regStack
     · simp only [υ4, Vm.advance, Vm.setA]; rw [hfz3.vals]; simp only [υ2, υ1', Vm.advance]; exact hfz1.vals
@@ -498,12 +808,99 @@ theorem epilogue (code : Code) (sc scd : Scope) (pre below : List CtxState) (arg
       cases ht'
       exact ⟨rfl, RbThm.C01Sim.SimRead.typed_getD_tag hrel.typed hrt _⟩
 
+/-! ### entering the callee -/
+
+/-- `PushStack` / `PushStaticStack f`: the collected values become the callee's parameters — in a fresh frame, or in the
+persistent block of the STATIC procedure `f` (every other variable of the block keeps its value) — and the machine is in
+the callee's activation, in the state `Ref.enter` prescribes -/
+theorem entry_step (W : World) (procs : List (ProcDecl SStmt)) (hp : ProcsOk W procs) (sc : Scope) (f : Nat)
+    (d : ProcDecl SStmt) (hd : procs[f]? = some d) (pre below : List CtxState) (s1 : St) (τ2 : Vm) (vals : List Val)
+    (p : Pos) (hrel2 : Rel W sc (.args vals :: pre) below s1 τ2)
+    (hi : W.code[τ2.pc]? = some (pushStackInstr W.lay f, p))
+    (htags : vals.map Val.tag = d.params.map (·.2)) :
+    ∃ τ3 fr1, τ2.ctx = .args vals :: (pre ++ topState sc fr1 :: below) ∧ τ2.curFrame = some fr1 ∧
+      FrameRel sc fr1 s1.locals ∧
+      Vm.step W.code τ2 = .next τ3 ∧ τ3.pc = τ2.pc + 1 ∧
+      Rel W (procScope W.P.gslots f d) [] (pre ++ topState sc fr1 :: below)
+        (Proc.Ref.enter { d with body := desugar d.body } f vals s1) τ3 ∧
+      τ3.trace = p :: τ2.trace ∧ τ3.regs = τ2.regs ∧ τ3.regStack = τ2.regStack ∧ τ3.vals = τ2.vals ∧
+      τ3.paths = τ2.paths ∧ τ3.rets = τ2.rets ∧ τ3.marks = τ2.marks ∧ τ3.skipNewline = τ2.skipNewline := by
+  obtain ⟨fr1, hctx2, hcf1, hfr1⟩ := hrel2.ctx
+  have hctx2' : τ2.ctx = .args vals :: (pre ++ topState sc fr1 :: below) := by simpa using hctx2
+  obtain ⟨hslots, hwfb⟩ := hp.wf f d hd
+  have hPf : W.P.procs[f]? = some { d with body := desugar d.body } := by
+    rw [hp.ref, List.getElem?_map, hd]; rfl
+  have hvlen : vals.length = d.params.length := by
+    have := congrArg List.length htags
+    simpa using this
+  have hflag : (W.lay[f]?.getD (0, false)).snd = d.static := by
+    have := hp.st f d hd
+    simpa [List.getD] using this
+  by_cases hdt : d.static = true
+  case neg =>
+    have hds : d.static = false := by simpa using hdt
+    have hi' : W.code[τ2.pc]? = some (CInstr.pushStack, p) := by
+      rw [hi]; simp [pushStackInstr, hflag, hds]
+    let τ3 : Vm := Vm.advance { τ2 with ctx := .frame (vals.map some) :: (pre ++ topState sc fr1 :: below),
+                                        trace := p :: τ2.trace }
+    have s3 : Vm.step W.code τ2 = .next τ3 := by simp only [Vm.step, hi', hctx2']; rfl
+    have hent : Proc.Ref.enter { d with body := desugar d.body } f vals s1 =
+        { s1 with self := none, env := Proc.Ref.freshEnv d.slots vals } := by
+      simp [Proc.Ref.enter, hds]
+    have hself : (procScope W.P.gslots f d).self = none := by simp [procScope, hds]
+    refine ⟨τ3, fr1, hctx2', hcf1, hfr1, s3, rfl, ?_, rfl, rfl, rfl, rfl, rfl, rfl, rfl, rfl⟩
+    rw [hent]
+    refine ⟨trivial, hself.symm, ⟨vals.map some, by simp [τ3, Vm.advance, topState, hself], rfl, ?_⟩, ?_, rfl,
+      hrel2.glob, hrel2.gtyped, hrel2.stat, ?_, hrel2.out, hrel2.data, hrel2.dataIdx, hrel2.queue, hrel2.funRes⟩
+    · exact frameRel_fresh W.P.gslots f d vals hvlen
+    · exact typed_fresh d vals hslots htags
+    · intro g hg; rw [hself] at hg; cases hg
+  case pos =>
+    have hds : d.static = true := hdt
+    have hi' : W.code[τ2.pc]? = some (CInstr.pushStatic f, p) := by
+      rw [hi]; simp [pushStackInstr, hflag, hds]
+    let blk : Frame := newBlock (τ2.statics f) vals
+    let τ3 : Vm := Vm.advance { τ2 with ctx := .sframe f :: (pre ++ topState sc fr1 :: below), trace := p :: τ2.trace,
+                                        statics := fun g => if g = f then some blk else τ2.statics g }
+    have s3 : Vm.step W.code τ2 = .next τ3 := by
+      simp only [Vm.step, hi', hctx2']
+      cases hsf : τ2.statics f <;> simp [τ3, blk, newBlock, hsf]
+    have hent : Proc.Ref.enter { d with body := desugar d.body } f vals s1 =
+        { s1 with self := some f,
+                  statics := fun g => if g = f then Proc.Ref.rebind (s1.statics f) vals else s1.statics g } := by
+      simp [Proc.Ref.enter, hds]
+    have hself : (procScope W.P.gslots f d).self = some f := by simp [procScope, hds]
+    have hsr := hrel2.stat f { d with body := desugar d.body } hPf hds
+    have hfrb : FrameRel (procScope W.P.gslots f d) blk (Proc.Ref.rebind (s1.statics f) vals) :=
+      frameRel_rebind W.P.gslots f d (τ2.statics f) (s1.statics f) vals hvlen hsr
+    have htyb : Typed d.slots (Proc.Ref.rebind (s1.statics f) vals) := typed_rebind d (s1.statics f) vals hslots htags hsr.typed
+    refine ⟨τ3, fr1, hctx2', hcf1, hfr1, s3, rfl, ?_, rfl, rfl, rfl, rfl, rfl, rfl, rfl, rfl⟩
+    rw [hent]
+    refine ⟨trivial, hself.symm, ⟨blk, by simp [τ3, Vm.advance, topState, hself], ?_, ?_⟩, ?_, rfl,
+      hrel2.glob, hrel2.gtyped, ?_, ?_, hrel2.out, hrel2.data, hrel2.dataIdx, hrel2.queue, hrel2.funRes⟩
+    · simp [Vm.curFrame, τ3, Vm.advance, curVars]
+    · simpa [Proc.Ref.St.locals] using hfrb
+    · simpa [Proc.Ref.St.locals, procScope] using htyb
+    · intro g dg hdg hst
+      by_cases hg : g = f
+      · subst hg
+        have : dg = { d with body := desugar d.body } := by rw [hPf] at hdg; exact (Option.some.inj hdg).symm
+        subst this
+        simp only [τ3, Vm.advance, if_true]
+        exact ⟨htyb, fun x t hx => by simpa [ogetVar] using hfrb.get x t hx⟩
+      · simp only [τ3, Vm.advance, hg, if_false]
+        exact hrel2.stat g dg hdg hst
+    · intro g hg
+      rw [hself] at hg
+      cases hg
+      exact ⟨_, hPf, hds, rfl⟩
+
 /-- the code of a call: prologue (up to the `Jump`) and epilogue (from the return address) -/
-theorem callCode_split (lay : List Nat) (off f : Nat) (args : Args) (p : Pos) (res : Option Ty) :
+theorem callCode_split (lay : Layout) (off f : Nat) (args : Args) (p : Pos) (res : Option Ty) :
     callCode lay off f args p res =
       ([(CInstr.beginArgs, p)] ++ pushArgs lay (off + 1) args ++
-        [(CInstr.pushStack, p), (CInstr.pushRet (off + 1 + sizePush args + 3), p),
-         (CInstr.jump (lay.getD f 0), p)]) ++
+        [(pushStackInstr lay f, p), (CInstr.pushRet (off + 1 + sizePush args + 3), p),
+         (CInstr.jump (lay.addr f), p)]) ++
       (enqueues 0 args ++ (match res with | some t => [(CInstr.stashResult args.length t, p)] | none => []) ++
         [(CInstr.popStack, p)] ++ writeBacks args ++
         (match res with | some _ => [(CInstr.unStash, p)] | none => [])) := by
@@ -536,10 +933,8 @@ theorem call_correct (W : World) (procs : List (ProcDecl SStmt)) (hp : ProcsOk W
     have h0 : W.code[σ.pc]? = some (CInstr.beginArgs, p) := hcPro.append_left.append_left.head
     let σ1 : Vm := Vm.advance { σ with ctx := .args [] :: σ.ctx }
     have s1 : Vm.step W.code σ = .next σ1 := by simp only [Vm.step, h0]; rfl
-    have hrel1 : Rel sc (.args [] :: pre) below s σ1 := by
-      obtain ⟨fr, h1, h2⟩ := hr.ctx
-      exact ⟨hr.coll, ⟨fr, by simp [σ1, Vm.advance, h1], h2⟩, hr.typed, hr.out, hr.data, hr.dataIdx, hr.queue,
-        hr.funRes⟩
+    have hrel1 : Rel W sc (.args [] :: pre) below s σ1 :=
+      hr.repre (pre' := .args [] :: pre) hr.coll (fun fr hfr => by simp [σ1, Vm.advance, hfr]) rfl rfl rfl rfl rfl rfl rfl
     have hcArgs : CodeAt W.code (σ.pc + 1) (pushArgs W.lay (σ.pc + 1) args) := by
       have := hcPro.append_left.append_right
       simpa using this
@@ -552,63 +947,69 @@ theorem call_correct (W : World) (procs : List (ProcDecl SStmt)) (hp : ProcsOk W
     | ok vals =>
       obtain ⟨τ2, st2, hp2, hrel2, hss2, htags⟩ := hA
       simp only [List.nil_append] at hrel2
-      obtain ⟨fr1, hctx2, hfr1⟩ := hrel2.ctx
-      have hctx2' : τ2.ctx = .args vals :: (pre ++ .frame fr1 :: below) := by simpa using hctx2
       have htags' : vals.map Val.tag = d.params.map (·.2) := by rw [hpar]; exact htags
-      have hvlen : vals.length = d.params.length := by
-        have := congrArg List.length htags'
-        simpa using this
-      -- PushStack, PushRet, Jump
+      -- PushStack / PushStaticStack, PushRet, Jump
       have hM := hcPro.append_right
       simp only [List.length_append, List.length_singleton, len_pushArgs] at hM
-      have hm0 : W.code[τ2.pc]? = some (CInstr.pushStack, p) := by
+      have hm0 : W.code[τ2.pc]? = some (pushStackInstr W.lay f, p) := by
         rw [hp2]; have := hM.head; rw [← this]; congr 1; omega
       have hm1 : W.code[τ2.pc + 1]? = some (CInstr.pushRet (σ.pc + 1 + sizePush args + 3), p) := by
         rw [hp2]; have := hM.tail.head; rw [← this]; congr 1; omega
-      have hm2 : W.code[τ2.pc + 1 + 1]? = some (CInstr.jump (W.lay.getD f 0), p) := by
+      have hm2 : W.code[τ2.pc + 1 + 1]? = some (CInstr.jump (W.lay.addr f), p) := by
         rw [hp2]; have := hM.tail.tail.head; rw [← this]; congr 1; omega
-      let below' : List CtxState := pre ++ .frame fr1 :: below
-      let τ3 : Vm := Vm.advance { τ2 with ctx := .frame (vals.map some) :: below', trace := p :: τ2.trace }
+      obtain ⟨τ3, fr1, hctx2', hcf1, hfr1, s3, hp3, hrel3, htr3, hrg3, hrs3, hv3, hpa3, hrt3, hmk3, hsk3⟩ :=
+        entry_step W procs hp sc f d hd pre below s1' τ2 vals p hrel2 hm0 htags'
+      let below' : List CtxState := pre ++ topState sc fr1 :: below
       let τ4 : Vm := Vm.advance { τ3 with rets := (σ.pc + 1 + sizePush args + 3) :: τ3.rets,
                                           marks := (τ3.regStack.length + 1) :: τ3.marks }
-      let τ5 : Vm := { τ4 with pc := W.lay.getD f 0 }
-      have s3 : Vm.step W.code τ2 = .next τ3 := by simp only [Vm.step, hm0, hctx2']; rfl
-      have s4 : Vm.step W.code τ3 = .next τ4 := by simp only [Vm.step, τ3, Vm.advance, hm1]; rfl
-      have s5 : Vm.step W.code τ4 = .next τ5 := by simp only [Vm.step, τ4, τ3, Vm.advance, hm2]; rfl
+      let τ5 : Vm := { τ4 with pc := W.lay.addr f }
+      have s4 : Vm.step W.code τ3 = .next τ4 := by
+        have : W.code[τ3.pc]? = some (CInstr.pushRet (σ.pc + 1 + sizePush args + 3), p) := by rw [hp3]; exact hm1
+        simp only [Vm.step, this]; rfl
+      have s5 : Vm.step W.code τ4 = .next τ5 := by
+        have : W.code[τ4.pc]? = some (CInstr.jump (W.lay.addr f), p) := by
+          simp only [τ4, Vm.advance, hp3]; exact hm2
+        simp only [Vm.step, this]; rfl
       -- the label (and the default result)
-      obtain ⟨k, r, stE, hcBody, hpopret⟩ := proc_entry W.code W.lay (W.lay.getD f 0) d τ5 hat rfl
-      let σb : Vm := { τ5 with pc := W.lay.getD f 0 + k, regs := r }
+      obtain ⟨k, r, stE, hcBody, hpopret⟩ := proc_entry W.code W.lay (W.lay.addr f) d τ5 hat rfl
+      let σb : Vm := { τ5 with pc := W.lay.addr f + k, regs := r }
       have preB : Steps W.code σ σb :=
         ((Steps.cons s1 st2).trans (Steps.cons s3 (Steps.cons s4 (Steps.one s5)))).trans stE
+      let scd := procScope W.P.gslots f d
+      let dP : ProcDecl Stmt := { d with body := desugar d.body }
       -- the body
-      have hrelb : Rel (procScope d) [] below' { s1' with env := Proc.Ref.freshEnv d.slots vals } σb :=
-        ⟨trivial, ⟨vals.map some, rfl, frameRel_fresh d vals hvlen⟩, typed_fresh d vals hslots htags',
-          hrel2.out, hrel2.data, hrel2.dataIdx, hrel2.queue, hrel2.funRes⟩
-      have hactb : ActInv (procScope d) 0 0 σb :=
-        ⟨fun h => by simp [procScope] at h, fun _ => ⟨_, τ2.rets, τ2.regStack.length + 1, τ2.marks, rfl, rfl, rfl,
+      have hrelb : Rel W scd [] below' (Proc.Ref.enter dP f vals s1') σb := hrel3.same rfl rfl rfl rfl rfl rfl
+      have hactb : ActInv scd 0 0 σb :=
+        ⟨fun h => by simp [scd, procScope] at h, fun _ => ⟨σ.pc + 1 + sizePush args + 3, τ2.rets, τ2.regStack.length + 1, τ2.marks,
+          by simp [σb, τ5, τ4, Vm.advance, hrt3], by simp [σb, τ5, τ4, Vm.advance, hmk3, hrs3],
+          by simp [σb, τ5, τ4, Vm.advance, hrs3],
           Nat.le_add_left _ _, Nat.zero_le _⟩⟩
-      have hB := ih.self.stmt (procScope d) d.body "" 0 0 (W.lay.getD f 0 + k) below'
-        { s1' with env := Proc.Ref.freshEnv d.slots vals } σb hcBody rfl hrelb hwfb hactb
+      have hB := ih.self.stmt scd d.body "" 0 0 (W.lay.addr f + k) below'
+        (Proc.Ref.enter dP f vals s1') σb hcBody rfl hrelb hwfb hactb
       simp only
-      generalize Proc.Ref.exec W.P fuel (desugar d.body) { s1' with env := Proc.Ref.freshEnv d.slots vals } = rb
-        at hB ⊢
+      generalize Proc.Ref.exec W.P fuel (desugar d.body) (Proc.Ref.enter dP f vals s1') = rb at hB ⊢
       obtain ⟨s2, o⟩ := rb
       -- the callee returns: by the final `PopRet` or by `EXIT SUB / FUNCTION`
       have hret : Proc.Ref.returns o = true →
-          ∃ τr, Steps W.code σb τr ∧ ExitedTo 0 0 σb τr ∧ Rel (procScope d) [] below' s2 τr := by
+          ∃ τr, Steps W.code σb τr ∧ ExitedTo 0 0 σb τr ∧ Rel W scd [] below' s2 τr := by
         intro hro
         cases o with
         | normal =>
           obtain ⟨τb, stb, hpb, hrelbb, hssb⟩ := hB
           have hpr : W.code[τb.pc]? = some (CInstr.popRet, d.pos) := by rw [hpb]; exact hpopret
-          have htrunc : truncRegs τb (τ2.regStack.length + 1) = some τb := truncRegs_full τb _ (by rw [hssb.regStack]; rfl)
+          have htrunc : truncRegs τb (τ2.regStack.length + 1) = some τb :=
+            truncRegs_full τb _ (by rw [hssb.regStack]; simp [σb, τ5, τ4, Vm.advance, hrs3])
           let τr : Vm := { τb with pc := σ.pc + 1 + sizePush args + 3, rets := τ2.rets, marks := τ2.marks }
           have sr : Vm.step W.code τb = .next τr := by
-            have e1 : τb.rets = (σ.pc + 1 + sizePush args + 3) :: τ2.rets := hssb.rets
-            have e2 : τb.marks = (τ2.regStack.length + 1) :: τ2.marks := hssb.marks
+            have e1 : τb.rets = (σ.pc + 1 + sizePush args + 3) :: τ2.rets := by
+              rw [hssb.rets]; simp [σb, τ5, τ4, Vm.advance, hrt3]
+            have e2 : τb.marks = (τ2.regStack.length + 1) :: τ2.marks := by
+              rw [hssb.marks]; simp [σb, τ5, τ4, Vm.advance, hmk3, hrs3]
             simp only [Vm.step, hpr, e1, e2, htrunc]; rfl
           refine ⟨τr, stb.trans (Steps.one sr), ?_, hrelbb.same rfl rfl rfl rfl rfl rfl⟩
-          exact ⟨⟨_, _, rfl, rfl, rfl⟩, hssb.regStack, hssb.vals, hssb.paths, hssb.trace, hssb.skip⟩
+          exact ⟨⟨σ.pc + 1 + sizePush args + 3, τ2.regStack.length + 1, by simp [σb, τ5, τ4, Vm.advance, hrt3, τr],
+              by simp [σb, τ5, τ4, Vm.advance, hmk3, hrs3, τr], rfl⟩,
+            hssb.regStack, hssb.vals, hssb.paths, hssb.trace, hssb.skip⟩
         | exited => exact hB
         | halted => cases hro
         | error c q => cases hro
@@ -630,38 +1031,57 @@ theorem call_correct (W : World) (procs : List (ProcDecl SStmt)) (hp : ProcsOk W
       | true =>
         obtain ⟨τr, str, hx, hrelr⟩ := hret hro
         obtain ⟨a', m', hxr, hxm, hxp⟩ := hx.ret
+        have hσbr : σb.rets = (σ.pc + 1 + sizePush args + 3) :: τ2.rets := by simp [σb, τ5, τ4, Vm.advance, hrt3]
+        have hσbm : σb.marks = (τ2.regStack.length + 1) :: τ2.marks := by simp [σb, τ5, τ4, Vm.advance, hmk3, hrs3]
         have hra : a' = σ.pc + 1 + sizePush args + 3 ∧ τr.rets = τ2.rets := by
-          have : (σ.pc + 1 + sizePush args + 3) :: τ2.rets = a' :: τr.rets := hxr
+          have : (σ.pc + 1 + sizePush args + 3) :: τ2.rets = a' :: τr.rets := by rw [← hσbr]; exact hxr
           injection this with h1 h2
           exact ⟨h1.symm, h2.symm⟩
         have hrm : τr.marks = τ2.marks := by
-          have : (τ2.regStack.length + 1) :: τ2.marks = m' :: τr.marks := hxm
+          have : (τ2.regStack.length + 1) :: τ2.marks = m' :: τr.marks := by rw [← hσbm]; exact hxm
           injection this with h1 h2
           exact h2.symm
-        have hepi := epilogue W.code sc (procScope d) pre below args p p res (σ.pc + 1 + sizePush args + 3) τr
-          s1'.env s2 fr1 τ2.trace W.sg (hcEpi.at (by omega)) (by rw [hxp, hra.1]) hrelr hr.coll hfr1 hrel2.typed
-          hx.trace haw
+        -- the caller's block, if it is a STATIC one, still exists with its parameters
+        have hgrow : Grows τ2 τr := steps_grows (((Steps.cons s3 (Steps.cons s4 (Steps.one s5))).trans stE).trans str)
+        have hst : ∀ g, sc.self = some g → ∃ fr, τr.statics g = some fr ∧ ∀ i, i < sc.np → ∃ w, fr[i]? = some (some w) := by
+          intro g hg
+          have hsf : τ2.statics g = some fr1 := by
+            have e := hcf1
+            unfold Vm.curFrame at e
+            have hc' : τ2.ctx = (.args vals :: pre) ++ topState sc fr1 :: below := by simpa using hctx2'
+            rw [hc', curVars_coll _ hrel2.coll] at e
+            simpa [topState, hg, curVars] using e
+          obtain ⟨fr', e1, k1⟩ := hgrow g fr1 hsf
+          exact ⟨fr', e1, fun i hi => k1 i (hfr1.created i hi)⟩
+        have hns : sc.self = none → FrameRel sc fr1 s1'.env ∧ Typed sc.slots.loc s1'.env := by
+          intro hn
+          have hs0 : s1'.self = none := by rw [hrel2.self, hn]
+          have hloc : s1'.locals = s1'.env := by simp [Proc.Ref.St.locals, hs0]
+          exact ⟨by rw [← hloc]; exact hfr1, by rw [← hloc]; exact hrel2.typed⟩
+        have hepi := epilogue W sc scd pre below args p p res (σ.pc + 1 + sizePush args + 3) τr
+          s1' s2 fr1 τ2.trace (hcEpi.at (by omega)) (by rw [hxp, hra.1]) hrelr hr.coll hrel2.self hrel2.gl hrel2.scok
+          hns hst (by rw [hx.trace]; simp [σb, τ5, τ4, Vm.advance, htr3]) haw
           (by
             intro k' pn pt hk
             rw [← hpar] at hk
-            simpa [procScope] using hslots.1 k' pn pt hk)
-          (by simp only [procScope]; omega)
+            simpa [scd, procScope] using hslots.1 k' pn pt hk)
+          (by simp only [scd, procScope]; omega)
           (by
             intro t ht
             rw [← hres] at ht
-            simpa [procScope, hplen] using hslots.2 t ht)
+            simpa [scd, procScope, hplen] using hslots.2 t ht)
         obtain ⟨υ, stυ, hpυ, hrelυ, htrυ, hrgυ, hvυ, hpaυ, hrtυ, hmkυ, hskυ, hresυ⟩ := hepi
         simp only [if_true, CallPost]
         refine ⟨υ, (preB.trans str).trans stυ, ?_, hrelυ, ?_, ?_⟩
         · rw [hpυ]; simp only [sizeCall]; omega
         · refine ⟨?_, ?_, ?_, ?_, ?_, ?_, ?_⟩
-          · rw [hvυ, hx.vals, List.drop_zero]; exact hss2.vals
-          · rw [hpaυ, hx.paths]; exact hss2.paths
-          · rw [hrgυ, hx.regStack, List.drop_zero]; exact hss2.regStack
+          · rw [hvυ, hx.vals, List.drop_zero]; simp only [σb, τ5, τ4, Vm.advance, hv3]; exact hss2.vals
+          · rw [hpaυ, hx.paths]; simp only [σb, τ5, τ4, Vm.advance, hpa3]; exact hss2.paths
+          · rw [hrgυ, hx.regStack, List.drop_zero]; simp only [σb, τ5, τ4, Vm.advance, hrs3]; exact hss2.regStack
           · rw [hrtυ, hra.2]; exact hss2.rets
           · rw [hmkυ, hrm]; exact hss2.marks
           · rw [htrυ]; exact hss2.trace
-          · intro hk; rw [hskυ]; exact hx.skip (hss2.skip hk)
+          · intro hk; rw [hskυ]; exact hx.skip (by simp only [σb, τ5, τ4, Vm.advance, hsk3]; exact hss2.skip hk)
         · intro t ht
           obtain ⟨h1, h2⟩ := hresυ t ht
           have hdr : d.result = some t := by rw [hres]; exact ht
